@@ -780,6 +780,32 @@ func TestC10ThroughSNIProxy(t *testing.T) {
 		}
 		// application data may follow in the same segment
 		stream := append(append([]byte{}, rec...), rapid.SliceOfN(rapid.Byte(), 0, 64).Draw(t, "trailing")...)
+		if rapid.IntRange(0, 7).Draw(t, "peer-goes-away-early") == 0 {
+			// the peer disconnects after a part of its hello (from nothing at all to all but the last
+			// byte): the connection is dropped, nothing is routed, nothing is read out of bounds
+			cut := rapid.IntRange(0, len(rec)-1).Draw(t, "cut")
+			if rapid.Bool().Draw(t, "cut-in-the-first-bytes") {
+				cut = rapid.IntRange(0, 12).Draw(t, "cut-early")
+			}
+			var got []string
+			func() {
+				defer func() {
+					if p := recover(); p != nil {
+						t.Fatalf("SNIProxy.ServeTCP panicked when the peer went away after %d of %d bytes of its hello: %v", cut, len(rec), p)
+					}
+				}()
+				got = sniThroughProxy(rec[:cut])
+			}()
+			hx.Eval()
+			if len(got) != 0 {
+				t.Fatalf("proxy looked up %q for a hello of which only %d of %d bytes arrived", got, cut, len(rec))
+			}
+			hx.Class("through-proxy:peer-goes-away-mid-hello")
+			if cut < 9 {
+				hx.Class("through-proxy:peer-goes-away-in-the-first-9-bytes")
+			}
+			return
+		}
 		std, called := stdlibServerName(rec)
 		var got []string
 		func() {
